@@ -579,7 +579,7 @@ def any_arg(f: Field):
 def c17_structs(tier):
     from .sets import ex_enum, ne_enum
     out = []
-    bases = (8, 12, 32, 64, 128) if tier == 'quick' else (8, 12, 16, 24, 32, 48, 64, 100, 128)
+    bases = (8, 12, 32, 64, 128) if tier == 'quick' else (8, 9, 12, 16, 17, 24, 31, 32, 33, 48, 63, 64, 65, 96, 100, 127, 128)
     for n in bases:
         kinds = []
         kinds.append(("bool", lambda: Field([(1, 1)], 'b')))
